@@ -1,14 +1,17 @@
 (* Theorems about the SHARED REFERENCE models (the mathematical objects libpoly's results are compared with).
    Statements only; proofs in ScalarProofs.v, UPolySpec.v, RefAlgSpec.v, RefAlgLoops.v, RefAlgOps.v.  The per-property files
    (Properties_C01 .. C20) contain further theorems about the reference functions they use
-   (MPolySpec.v for MPoly, RootIsoProofs.v for the Sturm count, SylvesterProofs.v for resultants, ...). *)
+   (MPolySpec.v for MPoly, RootIsoProofs.v for the Sturm count, SylvesterProofs.v for resultants, ...).
+   Arithmetic of the reference algebraic numbers: RefAlgDet.v (Bareiss determinant), RefAlgAnn.v (resultant and
+   annihilating polynomials), RefAlgSqfree.v (gcd and square-free part over a real closed field),
+   RefAlgArith.v (rn_add / rn_sub / rn_mul / rn_inv / rn_div / rn_pow by denotation). *)
 From Coq Require Import ZArith.
 From LP Require Import Scalar UPoly RefAlg.
 Set Warnings "-notation-overridden,-ambiguous-paths".
 From mathcomp Require Import all_ssreflect all_algebra all_real_closed.
 From mathcomp Require Import ssrZ.
 Set Warnings "notation-overridden,ambiguous-paths".
-From LP Require Import UPolySpec RefAlgSpec RefAlgLoops RefAlgOps RefAlgValid RefAlgCmp.
+From LP Require Import UPolySpec RefAlgSpec RefAlgLoops RefAlgOps RefAlgDet RefAlgAnn RefAlgArith RefAlgSqfree RefAlgFinal RefAlgRoots RefAlgRat RefAlgPow.
 Import GRing.Theory Num.Theory.
 Local Open Scope ring_scope.
 
@@ -97,35 +100,221 @@ Theorem Base_rn_neg : forall (R : rcfType) (x : rnum) (v : R), rn_denotes x v ->
 Proof. exact: rn_neg_spec. Qed.
 Print Assumptions Base_rn_neg.
 
-(* ---- validity and comparison of reference numbers, unconditionally (interval Sturm count: SturmItv.v; gcd, square-free
-   part: GcdSpec.v, RefAlgValid.v) *)
+(* ---------------------------------------------------------------- arithmetic of the reference algebraic numbers *)
 
-(* every representation accepted by rn_valid (checked on everything read from the implementation) denotes a real number *)
-Theorem Base_rn_valid_denotes : forall (R : rcfType) (x : rnum),
-  rn_valid x = true -> exists v : R, rn_denotes (rn_norm x) v.
-Proof. exact: rn_valid_denotes. Qed.
-Print Assumptions Base_rn_valid_denotes.
+(* G1: the fraction-free (Bareiss) determinant with row pivoting and exact divisions by the previous pivot, on a square
+   matrix of list polynomials, is the determinant over Z[z] *)
+Theorem Base_pdet_fast_det : forall (n : nat) (m : seq (seq (seq Z))),
+  size m = n -> all (fun r : seq (seq Z) => size r == n) m ->
+  Poly (pdet_fast m) = \det (\matrix_(i < n, j < n) (Poly (nth [::] (nth [::] m i) j) : {poly Z})).
+Proof. exact: pdet_fast_det. Qed.
+Print Assumptions Base_pdet_fast_det.
 
-(* the equality test (gcd has a root in the intersection of the isolating intervals) is sound *)
+(* G2: the reference resultant in t of two bivariate polynomials (coefficient lists in t, LOW degree first, leading
+   coefficients non-zero, coefficients list polynomials in z) is MathComp's resultant up to the sign (-1)^(deg a * deg b)
+   (RefAlg.sylvester lists the rows HIGH degree first = the classical Sylvester matrix; MathComp's lists them low
+   degree first).  BP l = Poly (map Poly l) : {poly {poly Z}} *)
+Theorem Base_bires_resultant : forall a b : seq (seq Z),
+  Poly (last [::] a) != 0 :> {poly Z} -> Poly (last [::] b) != 0 :> {poly Z} ->
+  Poly (bires a b) = (-1) ^+ ((size a).-1 * (size b).-1) * resultant (BP a) (BP b).
+Proof. exact: bires_resultant. Qed.
+Print Assumptions Base_bires_resultant.
+
+(* the slow reference (Laplace expansion pdet, bires_ref) is the determinant / the same resultant; hence the two
+   executable resultants agree on all operands with non-zero leading coefficients *)
+Theorem Base_pdet_det : forall (n : nat) (m : seq (seq (seq Z))),
+  size m = n -> all (fun r : seq (seq Z) => size r == n) m ->
+  Poly (pdet n m) = \det (\matrix_(i < n, j < n) (Poly (nth [::] (nth [::] m i) j) : {poly Z})).
+Proof. exact: pdet_det. Qed.
+Print Assumptions Base_pdet_det.
+
+Theorem Base_bires_ref_resultant : forall a b : seq (seq Z),
+  Poly (last [::] a) != 0 :> {poly Z} -> Poly (last [::] b) != 0 :> {poly Z} ->
+  Poly (bires_ref a b) = (-1) ^+ ((size a).-1 * (size b).-1) * resultant (BP a) (BP b).
+Proof. exact: bires_ref_resultant. Qed.
+Print Assumptions Base_bires_ref_resultant.
+
+Theorem Base_bires_ref_bires : forall a b : seq (seq Z),
+  Poly (last [::] a) != 0 :> {poly Z} -> Poly (last [::] b) != 0 :> {poly Z} -> bires_ref a b = bires a b.
+Proof. exact: bires_ref_bires. Qed.
+Print Assumptions Base_bires_ref_bires.
+
+(* G3: annihilating polynomials: non-zero, and vanish at the sum / product / power of roots, in every real closed field *)
+Theorem Base_ann_add_neq0 : forall p q : seq Z,
+  Poly p != 0 :> {poly Z} -> Poly q != 0 :> {poly Z} -> Poly (ann_add p q) != 0 :> {poly Z}.
+Proof. exact: ann_add_neq0. Qed.
+Print Assumptions Base_ann_add_neq0.
+
+Theorem Base_ann_add_root : forall (R : rcfType) (p q : seq Z) (a b : R),
+  Poly p != 0 :> {poly Z} -> Poly q != 0 :> {poly Z} ->
+  root (pr p) a -> root (pr q) b -> root (pr (ann_add p q)) (a + b).
+Proof. exact: ann_add_root. Qed.
+Print Assumptions Base_ann_add_root.
+
+Theorem Base_ann_mul_neq0 : forall p q : seq Z,
+  Poly p != 0 :> {poly Z} -> Poly q != 0 :> {poly Z} -> Poly (ann_mul p q) != 0 :> {poly Z}.
+Proof. exact: ann_mul_neq0. Qed.
+Print Assumptions Base_ann_mul_neq0.
+
+(* extra hypothesis b <> 0 (see RefAlgAnn.ann_mul_root): rn_mul never multiplies by zero through ann_mul *)
+Theorem Base_ann_mul_root : forall (R : rcfType) (p q : seq Z) (a b : R),
+  Poly p != 0 :> {poly Z} -> Poly q != 0 :> {poly Z} -> b != 0 ->
+  root (pr p) a -> root (pr q) b -> root (pr (ann_mul p q)) (a * b).
+Proof. exact: ann_mul_root. Qed.
+Print Assumptions Base_ann_mul_root.
+
+Theorem Base_ann_pow_neq0 : forall (p : seq Z) (n : nat),
+  Poly p != 0 :> {poly Z} -> (0 < n)%N -> Poly (ann_pow p n) != 0 :> {poly Z}.
+Proof. exact: ann_pow_neq0. Qed.
+Print Assumptions Base_ann_pow_neq0.
+
+Theorem Base_ann_pow_root : forall (R : rcfType) (p : seq Z) (n : nat) (a : R),
+  Poly p != 0 :> {poly Z} -> (0 < n)%N -> root (pr p) a -> root (pr (ann_pow p n)) (a ^+ n).
+Proof. exact: ann_pow_root. Qed.
+Print Assumptions Base_ann_pow_root.
+
+(* the reference gcd is a gcd over every real closed field, and the square-free part is non-zero, coprime with its
+   derivative over R, and has the same roots in R *)
+Theorem Base_pr_pgcd : forall (R : rcfType) (a b : seq Z),
+  Poly a != 0 :> {poly Z} -> (@pr R (pgcd a b) %= gcdp (pr a) (pr b))%R.
+Proof. exact: pr_pgcd. Qed.
+Print Assumptions Base_pr_pgcd.
+
+Theorem Base_psqfree_correct : forall (R : rcfType) (p : seq Z), Poly p != 0 :> {poly Z} ->
+  [/\ Poly (psqfree p) != 0 :> {poly Z}, coprimep (@pr R (psqfree p)) (@pr R (psqfree p))^`()
+    & forall v : R, root (pr (psqfree p)) v = root (pr p) v].
+Proof. exact: psqfree_correct. Qed.
+Print Assumptions Base_psqfree_correct.
+
+(* G4: the operations of the reference algebraic numbers, by denotation, in every real closed field: WHEN an operation
+   answers (fuel not exhausted), the answer denotes the mathematical result.  All unconditional: the interval Sturm
+   count (RefAlgValid.count_open_correct, proved for C06 on top of SturmItv.v) discharges the only premise of
+   RefAlgArith.v / RefAlgSqfree.v (count_open_correct_premise; the `_cond` / `_sturm` lemmas there are stated relative
+   to it). *)
+Theorem Base_count_open_correct : forall (R : rcfType) (r : seq Z) (l h : Z * Z),
+  qpos l -> qpos h -> @qr R l < qr h -> Poly r != 0 :> {poly Z} ->
+  (@pr R r).[qr l] != 0 -> (@pr R r).[qr h] != 0 ->
+  count_open r l h = size (roots (@pr R r) (qr l) (qr h)).
+Proof. exact: RefAlgValid.count_open_correct. Qed.
+Print Assumptions Base_count_open_correct.
+
+(* the selection loop: encl_ok = the enclosure computed from the current representations is the point v or an open
+   interval around v *)
+Theorem Base_rn_select : forall (R : rcfType) (fuel : nat) (r : seq Z) encl (x y z : rnum) (a b v : R),
+  Poly r != 0 :> {poly Z} -> coprimep (@pr R r) (@pr R r)^`() -> root (pr r) v -> encl_ok encl a b v ->
+  rn_denotes x a -> rn_denotes y b -> rn_select fuel r encl x y = Some z -> rn_denotes z v.
+Proof. exact: rn_select_spec. Qed.
+Print Assumptions Base_rn_select.
+
+Theorem Base_rn_add : forall (R : rcfType) (fuel : nat) (x y z : rnum) (a b : R),
+  rn_denotes x a -> rn_denotes y b -> rn_add fuel x y = Some z -> rn_denotes z (a + b).
+Proof. exact: rn_add_spec. Qed.
+Print Assumptions Base_rn_add.
+
+Theorem Base_rn_sub : forall (R : rcfType) (fuel : nat) (x y z : rnum) (a b : R),
+  rn_denotes x a -> rn_denotes y b -> rn_sub fuel x y = Some z -> rn_denotes z (a - b).
+Proof. exact: rn_sub_spec. Qed.
+Print Assumptions Base_rn_sub.
+
+Theorem Base_rn_mul : forall (R : rcfType) (fuel : nat) (x y z : rnum) (a b : R),
+  rn_denotes x a -> rn_denotes y b -> rn_mul fuel x y = Some z -> rn_denotes z (a * b).
+Proof. exact: rn_mul_spec. Qed.
+Print Assumptions Base_rn_mul.
+
+Theorem Base_rn_inv : forall (R : rcfType) (fuel : nat) (x z : rnum) (a : R),
+  rn_denotes x a -> rn_inv fuel x = Some z -> a != 0 /\ rn_denotes z a^-1.
+Proof. exact: rn_inv_spec. Qed.
+Print Assumptions Base_rn_inv.
+
+Theorem Base_rn_div : forall (R : rcfType) (fuel : nat) (x y z : rnum) (a b : R),
+  rn_denotes x a -> rn_denotes y b -> rn_div fuel x y = Some z -> b != 0 /\ rn_denotes z (a / b).
+Proof. exact: rn_div_spec. Qed.
+Print Assumptions Base_rn_div.
+
+Theorem Base_rn_pow : forall (R : rcfType) (fuel : nat) (x z : rnum) (a : R) (n : nat),
+  rn_denotes x a -> rn_pow fuel x n = Some z -> rn_denotes z (a ^+ n).
+Proof. exact: rn_pow_spec. Qed.
+Print Assumptions Base_rn_pow.
+
+(* multiplication of a reference number by a rational, directly on the representation *)
+Theorem Base_rn_mul_q : forall (R : rcfType) (x : rnum) (q : Z * Z) (v : R),
+  rn_denotes x v -> qpos q -> rn_denotes (rn_mul_q x q) (v * qr q).
+Proof. exact: rn_mul_q_spec. Qed.
+Print Assumptions Base_rn_mul_q.
+
+(* exact value of a reference multivariate polynomial at real algebraic points (the reference of C10-C12):
+   mp_evalR rhoR p = sum over the terms (m, c) of  c * prod over (v, e) in m of rhoR v ^ e  - the formula of
+   MPoly.mp_eval, read in R *)
+Theorem Base_mp_eval_rn : forall (R : rcfType) (fuel : nat) (rho : MPoly.var -> rnum) (rhoR : MPoly.var -> R)
+  (p : MPoly.mpoly) (z : rnum),
+  (forall v, rn_denotes (rho v) (rhoR v)) ->
+  mp_eval_rn fuel rho p = Some z -> rn_denotes z (mp_evalR rhoR p).
+Proof. exact: mp_eval_rn_spec. Qed.
+Print Assumptions Base_mp_eval_rn.
+
+(* the equality test of the reference comparison (gcd, square-free part, Sturm count on the intersection of the isolating
+   intervals) is sound, and hence the full comparison rn_cmp - the operation by which every check compares libpoly's
+   numbers with the reference BY DENOTATION - computes the sign of a - b (compare Base_rn_cmp_cond above, which
+   assumes the soundness of the equality test) *)
 Theorem Base_rn_eqb_sound : forall (R : rcfType) (x y : rnum) (a b : R),
   rn_denotes x a -> rn_denotes y b -> rn_eqb x y = true -> a = b.
 Proof. exact: rn_eqb_sound. Qed.
 Print Assumptions Base_rn_eqb_sound.
 
-(* FULL: whenever the reference comparison answers, the answer is the sign of a - b *)
 Theorem Base_rn_cmp : forall (R : rcfType) (fuel : nat) (x y : rnum) (a b : R) (s : Z),
   rn_denotes x a -> rn_denotes y b -> rn_cmp fuel x y = Some s -> zr s = Num.sg (a - b).
 Proof. exact: rn_cmp_spec. Qed.
 Print Assumptions Base_rn_cmp.
 
-(* extended values *)
-Theorem Base_xv_cmp : forall (R : rcfType) (fuel : nat) (u v : xval) (a b : R) (s : Z),
-  xv_denotes u a -> xv_denotes v b -> xv_cmp fuel u v = Some s ->
-  match u, v with
-  | XFin _, XFin _ => zr s = Num.sg (a - b)
-  | XMinf, XMinf | XPinf, XPinf => s = Z0
-  | XMinf, _ | _, XPinf => s = Zneg xH
-  | _, _ => s = Zpos xH
-  end.
-Proof. exact: xv_cmp_spec. Qed.
-Print Assumptions Base_xv_cmp.
+(* what the drivers check on every number read from the implementation (rn_valid) guarantees that the normalised
+   representation denotes a real number (unique by definition of rn_denotes) *)
+Theorem Base_rn_valid_denotes : forall (R : rcfType) (x : rnum),
+  rn_valid x = true -> exists v : R, rn_denotes (rn_norm x) v.
+Proof. exact: rn_valid_denotes. Qed.
+Print Assumptions Base_rn_valid_denotes.
+
+(* all real roots of a non-zero polynomial by the reference (psqfree, Cauchy bound root_bound, Sturm counts on half-open
+   intervals, bisection, rational roots hit by a midpoint split off by exact division): the answer denotes, element by
+   element (dens), the increasing list rootsR of ALL roots of p in R *)
+Theorem Base_root_bound : forall (R : rcfType) (p : seq Z) (w : R),
+  Poly p != 0 :> {poly Z} -> root (pr p) w -> `|w| < zr (root_bound p).
+Proof. exact: root_bound_lt. Qed.
+Print Assumptions Base_root_bound.
+
+Theorem Base_rn_isolate : forall (R : rcfType) (fuel : nat) (p : seq Z) (lo hi : Z * Z) (rs : seq rnum),
+  Poly p != 0 :> {poly Z} -> coprimep (@pr R p) (@pr R p)^`() -> qpos lo -> qpos hi -> @qr R lo < qr hi ->
+  (@pr R p).[qr lo] != 0 -> rn_isolate fuel p lo hi = Some rs ->
+  exists2 vs : seq R, dens rs vs & isolated p (qr lo) (qr hi) vs.
+Proof. exact: rn_isolate_spec. Qed.
+Print Assumptions Base_rn_isolate.
+
+Theorem Base_rn_roots : forall (R : rcfType) (fuel : nat) (p : seq Z) (rs : seq rnum),
+  Poly p != 0 :> {poly Z} -> rn_roots fuel p = Some rs -> dens rs (rootsR (@pr R p)).
+Proof. exact: rn_roots_correct. Qed.
+Print Assumptions Base_rn_roots.
+
+(* sign, rationality (x is rational iff lc(p) * x is an integer: rational root theorem) and the rational value *)
+Theorem Base_rn_sgn : forall (R : rcfType) (x : rnum) (a : R), rn_denotes x a -> zr (rn_sgn x) = Num.sg a.
+Proof. exact: rn_sgn_spec. Qed.
+Print Assumptions Base_rn_sgn.
+
+Theorem Base_rational_root_den : forall (R : rcfType) (l : seq Z) (n d : Z), Z.lt 0 d -> Z.gcd n d = Zpos xH ->
+  (@pr R l).[zr n / zr d] = 0 -> Z.divide d (last Z0 l).
+Proof. exact: rational_root_den. Qed.
+Print Assumptions Base_rational_root_den.
+
+Theorem Base_rn_is_rational : forall (R : rcfType) (fuel : nat) (x : rnum) (v : R) (b : bool),
+  rn_denotes x v -> rn_is_rational fuel x = Some b -> b = true <-> exists q : Z * Z, qpos q /\ v = qr q.
+Proof. exact: rn_is_rational_spec. Qed.
+Print Assumptions Base_rn_is_rational.
+
+Theorem Base_rn_to_rational : forall (R : rcfType) (fuel : nat) (x : rnum) (v : R) (q : Z * Z),
+  rn_denotes x v -> rn_to_rational fuel x = Some q -> qpos q /\ v = qr q.
+Proof. exact: rn_to_rational_spec. Qed.
+Print Assumptions Base_rn_to_rational.
+
+(* the direct power x^n (annihilator Res_t(p(t), z - t^n), enclosure by the powers of the interval ends) *)
+Theorem Base_rn_pow_direct : forall (R : rcfType) (fuel : nat) (x z : rnum) (a : R) (n : nat),
+  rn_denotes x a -> rn_pow_direct fuel x n = Some z -> rn_denotes z (a ^+ n).
+Proof. exact: rn_pow_direct_spec. Qed.
+Print Assumptions Base_rn_pow_direct.
